@@ -13,7 +13,8 @@ from apt_mirror.repository import FlatRepository, Repository
 
 EXPECTED = ["C17_union", "C17_perm", "C17_line_ext", "C17_findKey_scope", "C17_getBool_table",
             "C17_legacy_alias_counterexample", "C17_vars_resolved", "C17_vars_keys", "C17_vars_literal_kept", "C17_vars_idempotent",
-            "C17_vars_direct", "C17_vars_direct_order", "C17_vars_forward", "C17_vars_forward_late_bound", "C17_vars_order_quirk", "C17_getSize_spec", "C17_getBool_spec"]
+            "C17_vars_direct", "C17_vars_direct_order", "C17_vars_forward", "C17_vars_forward_late_bound", "C17_vars_order_quirk", "C17_getSize_spec", "C17_getBool_spec",
+            "C17_skipClean_boundary", "C17_skipClean_nested", "C17_skipClean_scope"]
 LEVEL = "proof"
 RULE = ("configuration = 1-6 deb / deb-<arch> / deb-src lines with optional [arch=..,src by-hash=..] blocks over a universe of "
         "4 URLs (two of which are string prefixes of another), 2 codenames or 2 flat directories, 3 components, 3 "
@@ -297,6 +298,18 @@ def monitor_options(chk, rng, lines):
                 rel = "/".join(sp[len(kp):]) or "."
                 if rel not in snap[k]["skip_clean"]:
                     chk.violation("option:skip-clean:path", replay, f"{line!r}: repository {k} should protect {rel!r}, has {snap[k]['skip_clean']}")
+    if kind == "skip-clean":
+        # Model/Config.lean skipCleanTargets (URL.is_part_of over the URLs as str(URL) renders them) vs the repositories whose
+        # skip_clean set the real Config changed
+        from apt_mirror.download.url import URL as _URL
+        rendered = {k: str(_URL.from_string(k)) for k in keys}
+        mt = driver().call("skip_clean", repos=[rendered[k] for k in keys], url=str(_URL.from_string(line.split()[1])))
+        model_keys = sorted(k for k in keys if rendered[k] in mt)
+        if model_keys != sorted(changed):
+            chk.violation("correspondence-skip-clean", dict(replay, disagreement={"real": sorted(changed), "model": model_keys},
+                          correspondence="Model/Config.lean skipCleanTargets vs Config._update_skip_clean"),
+                          f"{line!r}: real {sorted(changed)} model {model_keys}", no_input=True)
+        chk.count("skip_clean_lines_compared_with_model")
     if sorted(changed) != sorted(want):
         chk.violation("option:scope:" + kind, replay,
                       f"option line {line!r} changed repositories {changed}, should change exactly {want}")
